@@ -76,6 +76,8 @@ def plan(tier, seed):
         jobs.append({"k": "shapes", "suffix": suffix, "seed": seed})
         jobs.append({"k": "emap", "suffix": suffix, "seed": seed})
     jobs.append({"k": "unknown", "seed": seed})
+    for i in range(4 if tier == "quick" else 40):
+        jobs.append({"k": "together", "i": i, "seed": seed})
     if tier == "thorough":
         for i in range(600):
             jobs.append({"k": "random", "i": i, "seed": seed})
@@ -219,6 +221,44 @@ def run_job(job, ctx):
                                 witness={"argv": res.argv, "observed": res.brief()}))
             else:
                 out.append(Case(HELD, key=key, nontrivial=True, sets=sets, counters={"rejections": 1}))
+    elif k == "together":
+        # many names in ONE run: each file's grammar must not depend on which other files are examined with it (a grammar
+        # chosen per name, not per "last extension seen first")
+        r = rng("c16t", job["seed"], job["i"])
+        files, want = {}, {}
+        names = []
+        for suffix in r.sample(langs.ALL_SUFFIXES, 14) + ["go.mod", "go.sum", "go.work", "d.ts", "Makefile"]:
+            if suffix == "swift":
+                continue
+            names.append(r.choice(["a/", "b/c/", ""]) + langs.file_name_for(suffix, r.choice(["x", "y.z", "w"])))
+        names = list(dict.fromkeys(names))
+        for name in names:
+            g = grammar_for(name, {})
+            lang = g if not name.endswith(("go.mod", "go.sum", "go.work")) else "gomod"
+            gf = gen.gen_file(r, lang, gen.Opts(max_blocks=3, max_depth=2))
+            files[name] = gf.data
+            want[name] = [(b.name, b.line, b.col) for b in gf.blocks]
+        # unregistered names that share their *last* extension with a compound / whole-name suffix
+        for name in ("notes.mod", "checks.sum", "zz.work", "sub/x.mod", "Makefile.bak", "readme.d"):
+            files[name] = POISON.encode()
+        order = list(files)
+        r.shuffle(order)
+        root = run.make_repo({n: files[n] for n in order})
+        try:
+            res = run.run(ctx.bin("rel"), ["list"], root, stdin=None, env=dict(TERM))
+        finally:
+            run.rm(root)
+        key = h(["together", sorted(files)])
+        sets = {"shape": ["together"], "grammar": ["many"]}
+        listing = res.listing() if res.cls == "ok" else None
+        got = {n: [(b.get("name"), b.get("line"), b.get("column")) for b in v] for n, v in (listing or {}).items()}
+        if listing is None or got != {n: w for n, w in want.items() if w}:
+            diffn = sorted(n for n in set(got) | set(want) if got.get(n, []) != want.get(n, []))[:4] if listing is not None else []
+            out.append(Case(VIOLATED, key=key, nontrivial=True, sets=sets, sig="C16/together/%s" % ("run-" + res.cls if listing is None else "blocks-differ"),
+                            summary="%d files examined in one run: %s; differing files %s; stderr %s" % (len(files), res.cls, diffn, res.err_text()[:200]),
+                            witness={"files": files_text(files, 800), "expected": want, "observed": res.brief(3000), "job": job}))
+        else:
+            out.append(Case(HELD, key=key, nontrivial=True, sets=sets, counters={"together_runs": 1, "together_files": len(files)}))
     elif k == "unknown":
         for name in ("GNUmakefile", "README", "Dockerfile", "x", "x.", "x.txt", "x.PY", "x.Py", "MAKEFILE", "x.makefile.in",
                      "go.mod.bak", "x.d", "x.mod", "x.sum", "d.ts.map", "x.rs~", "x.yaml.j2", "x.c++", "x.hpp", "py", "x.py "):
